@@ -55,6 +55,8 @@ type fw struct {
 	full    bool
 	maxes   []uint64 // per field: legal maximum of a ue(v) field + 1 (0 = not a ue field)
 	guardAt int      // modeGuard: index of the field written as max+1 (-1: none)
+	guardV  *uint64  // guard sweep: the exact value written at guardAt (nil: max+1, sometimes a little more)
+	chain   int      // > 0: HEVC SPS with this many short-term RPS forming the worst-case inter-prediction chain
 	hostile []string // names=values of the hostile fields written (debugging)
 	trace   []string // every field (only with structTraceOn)
 }
@@ -141,9 +143,13 @@ func (f *fw) ue(name string, max uint64, typical ...int) uint64 {
 		f.maxes[idx] = max + 1
 	}
 	if f.guardAt == idx {
-		v = max + 1
-		if f.hr.Intn(3) == 0 {
-			v += uint64(f.hr.Intn(30))
+		if f.guardV != nil {
+			v = *f.guardV
+		} else {
+			v = max + 1
+			if f.hr.Intn(3) == 0 {
+				v += uint64(f.hr.Intn(30))
+			}
 		}
 		f.note(name, v)
 	}
@@ -876,6 +882,34 @@ func synHevcScalingListData(f *fw) {
 // synHevcSTRPS mirrors parseShortTermRPS; abort = the parser sets an error and returns.
 func synHevcSTRPS(f *fw, idx, n byte, sets []hevcRPS) (out hevcRPS, abort bool) {
 	inter := false
+	if f.chain > 0 {
+		// worst-case chain: set 0 lists 16 + 16 pictures, every later set is predicted from its predecessor
+		// and keeps every entry plus the new one: NumDeltaPocs grows by one per set (32, 33, 34, ...).
+		// hevc.parseShortTermRPS counts them in a uint8 and loops `for j := byte(0); j <= numDeltaPocs; j++`:
+		// the guard num_short_term_ref_pic_sets <= 64 is what keeps that count below 255
+		if idx > 0 {
+			f.raw(1, 1)
+			if idx == n {
+				f.wue(0)
+			}
+			f.raw(0, 1)
+			f.wue(0)
+			nd := int(sets[idx-1].numDeltaPocs)
+			for j := 0; j <= nd; j++ {
+				f.raw(1, 1)
+			}
+			out.numDeltaPocs = byte(nd + 1)
+			return out, false
+		}
+		f.wue(16)
+		f.wue(16)
+		for i := 0; i < 32; i++ {
+			f.wue(0)
+			f.raw(1, 1)
+		}
+		out.numDeltaPocs, out.inUse = 32, 32
+		return out, false
+	}
 	if idx > 0 {
 		inter = f.flag("inter_ref_pic_set_prediction_flag", 30)
 	}
@@ -904,9 +938,8 @@ func synHevcSTRPS(f *fw, idx, n byte, sets []hevcRPS) (out hevcRPS, abort bool) 
 	}
 	neg := byte(f.ue("num_negative_pics", 16, 0, 1, 2, 3))
 	pos := byte(f.ue("num_positive_pics", 16, 0, 0, 1, 2))
-	if neg > 16 || pos > 16 {
-		return out, true
-	}
+	// the parser rejects more than 16: the writer goes on as if the (narrowed) values had been accepted, so that
+	// a parser with a loosened guard finds the announced entries
 	out.numDeltaPocs = neg + pos
 	for i := 0; i < int(neg)+int(pos); i++ {
 		f.ue("delta_poc_minus1", 32767, 0, 1, 3)
@@ -1085,11 +1118,18 @@ func synHevcSPS(f *fw, id uint64) hevcSPSInfo {
 		f.ue("log2_diff_max_min_pcm_luma_coding_block_size", 2, 0, 1)
 		f.flag("pcm_loop_filter_disabled_flag", 50)
 	}
-	nRPS := f.ue("num_short_term_ref_pic_sets", 64, 0, 1, 2, 3, 4)
-	if nRPS <= 64 {
+	var nRPS uint64
+	if f.chain > 0 {
+		nRPS = uint64(f.chain)
+		f.wue(nRPS)
+	} else {
+		nRPS = f.ue("num_short_term_ref_pic_sets", 64, 0, 1, 2, 3, 4)
+	}
+	{
+		// the parser rejects more than 64: the writer goes on with the narrowed count as if it had been accepted
 		s.nRPS = byte(nRPS)
 		s.rps = make([]hevcRPS, s.nRPS)
-		for idx := byte(0); idx < s.nRPS; idx++ {
+		for idx := byte(0); idx < s.nRPS && !f.full; idx++ {
 			var abort bool
 			s.rps[idx], abort = synHevcSTRPS(f, idx, s.nRPS, s.rps)
 			if abort {
@@ -1998,14 +2038,51 @@ func guardSweep(r *hx.Rng, target string, variants int) [][]byte {
 		body(d)
 		for i, m := range d.maxes {
 			if m > 0 && m <= 4096 {
-				f := mk()
-				f.guardAt = i
-				body(f)
-				out = append(out, f.w.bytes(true))
+				for _, gv := range guardValues(m - 1) {
+					f := mk()
+					f.guardAt = i
+					v := gv
+					f.guardV = &v
+					body(f)
+					out = append(out, f.w.bytes(true))
+				}
 			}
 		}
 	}
 	capLimit = 40
+	return out
+}
+
+// guardValues: the values a guarded field (legal range 0..c) is swept over: just below, at and just above the guard,
+// twice the guard, and the narrowing boundaries 255 / 256 / 65535 (a guard moved to any of these shows up as an
+// outcome-class difference between the parser and the model at one of the values in between).
+func guardValues(c uint64) []uint64 {
+	var out []uint64
+	seen := map[uint64]bool{}
+	for _, v := range []uint64{c - 1, c, c + 1, 2 * c, 2*c + 1, 255, 256, 65535} {
+		if c == 0 && v > 1<<62 {
+			continue
+		}
+		if !seen[v] {
+			seen[v] = true
+			out = append(out, v)
+		}
+	}
+	return out
+}
+
+// hevcRPSChainCounts: numbers of short-term reference picture sets for the worst-case chain units (see synHevcSTRPS):
+// around the guard 64, and where a uint8 NumDeltaPocs would reach 255 (32 + 223) if the guard were higher.
+var hevcRPSChainCounts = []int{2, 63, 64, 65, 128, 223, 224, 225, 255}
+
+// hevcRPSChainUnits: one HEVC SPS per count, everything else plausible.
+func hevcRPSChainUnits(r *hx.Rng) [][]byte {
+	var out [][]byte
+	for _, n := range hevcRPSChainCounts {
+		f := &fw{r: hx.NewRng(r.U64()), hr: hx.NewRng(1), at: map[int]bool{}, maxBits: 1 << 16, guardAt: -1, chain: n}
+		synHevcSPS(f, 0)
+		out = append(out, f.w.bytes(true))
+	}
 	return out
 }
 
